@@ -809,6 +809,20 @@ func (g *gen) history(group string) *history {
 				w, hh = maxi(1, w-r.Intn(9)), maxi(1, hh-r.Intn(9))
 			}
 		}
+	case "lossless-big-then-small": // a large noisy lossless encode fills every scratch histogram / hash chain, then small simple images
+		bw, bh := 40+r.Intn(60), 30+r.Intn(50)
+		big := g.img(bw, bh)
+		big.Kind = []string{"noise", "noise", "grad"}[r.Intn(3)]
+		big.Alpha = r.Pick(0, 3)
+		h.Calls = append(h.Calls, &Call{Op: "enc", Img: big, Opt: g.losslessOpts()})
+		for i := 1; i < n; i++ {
+			im := g.img(4+r.Intn(bw-3), 4+r.Intn(bh-3))
+			im.Kind = []string{"grad", "blocks", "pal", "flat", "grad"}[r.Intn(5)]
+			im.Colors = r.Pick(2, 3, 5, 16, 40)
+			o := g.losslessOpts()
+			o.Q = float32(r.Pick(30, 50, 75, 95, 100))
+			h.Calls = append(h.Calls, &Call{Op: "enc", Img: im, Opt: o})
+		}
 	case "decode-aba": // decode A, decode B, decode A … (incl. failing inputs in between)
 		fam := []string{"vp8", "vp8a", "vp8l", "any"}[r.Intn(4)]
 		pred := func(t string) bool {
@@ -1061,8 +1075,8 @@ func run(c *Ctx) {
 	var hs []*history
 	hs = append(hs, regressionHistories(g)...)
 
-	groups := []string{"lossy-enc-same-mb", "lossy-enc-option-pairs", "larger-then-smaller", "lossless-colours", "decode-aba", "anim-between-stills", "mixed", "parallel-lossy-enc"}
-	per := map[string]int{"lossy-enc-same-mb": 14, "lossy-enc-option-pairs": 10, "larger-then-smaller": 6, "lossless-colours": 8, "decode-aba": 16, "anim-between-stills": 6, "mixed": 6, "parallel-lossy-enc": 4}
+	groups := []string{"lossy-enc-same-mb", "lossy-enc-option-pairs", "larger-then-smaller", "lossless-colours", "lossless-big-then-small", "decode-aba", "anim-between-stills", "mixed", "parallel-lossy-enc"}
+	per := map[string]int{"lossy-enc-same-mb": 14, "lossy-enc-option-pairs": 10, "larger-then-smaller": 6, "lossless-colours": 8, "lossless-big-then-small": 10, "decode-aba": 16, "anim-between-stills": 6, "mixed": 6, "parallel-lossy-enc": 4}
 	if c.Thorough() {
 		for k := range per {
 			per[k] *= 12
@@ -1186,13 +1200,13 @@ func regressionHistories(g *gen) []*history {
 	var truncs, goods []*libFile
 	for i := range g.lib {
 		switch g.lib[i].Tag {
-		case "vp8-trunc", "vp8a-trunc":
+		case "vp8-trunc", "vp8a-trunc", "vp8-corrupt", "vp8a-corrupt":
 			truncs = append(truncs, &g.lib[i])
 		case "vp8", "vp8a":
 			goods = append(goods, &g.lib[i])
 		}
 	}
-	for i := 0; i < len(truncs) && i < 6; i++ {
+	for i := 0; i < len(truncs); i++ {
 		gd := goods[(i*3+1)%len(goods)]
 		out = append(out, &history{Group: "regression-failed-decode-then-decode", Procs: 1, Calls: []*Call{g.decCall(truncs[i]), g.decCall(gd)}})
 	}
